@@ -164,6 +164,22 @@ class Conc:
         if name.endswith("Option::<T>::ok_or"):
             o = r(args[0])
             return ("adt", "std::result::Result", "Err", (r(args[1]),)) if o == NONE else ("adt", "std::result::Result", "Ok", (o[1],))
+        # ASCII case functions of char (code points): total, identity / false outside ASCII
+        if name.endswith("<impl char>::to_ascii_lowercase") and len(args) == 1:
+            c = r(args[0])
+            return c + 32 if 65 <= c <= 90 else c
+        if name.endswith("<impl char>::to_ascii_uppercase") and len(args) == 1:
+            c = r(args[0])
+            return c - 32 if 97 <= c <= 122 else c
+        if name.endswith("<impl char>::is_ascii_uppercase") and len(args) == 1:
+            return 65 <= r(args[0]) <= 90
+        if name.endswith("<impl char>::is_ascii_lowercase") and len(args) == 1:
+            return 97 <= r(args[0]) <= 122
+        if name.endswith("<impl char>::is_ascii_alphabetic") and len(args) == 1:
+            c = r(args[0])
+            return 65 <= c <= 90 or 97 <= c <= 122
+        if name.endswith("<impl char>::is_ascii") and len(args) == 1:
+            return 0 <= r(args[0]) <= 127
         if name in ("std::cmp::max", "std::cmp::min"):
             vs = [r(a) for a in args]
             return max(vs) if name.endswith("max") else min(vs)
